@@ -466,7 +466,7 @@ impl Case {
             self.out.end, fin)
     }
     pub fn kind_name(&self) -> String {
-        match self.kind { 0 => "offered".into(), 1 => "reverse".into(), 7 => "lifetime".into(), 3 => format!("onehop.{}", self.what.split(' ').nth(1).unwrap_or("")), _ => format!("mut.{}", self.what.split(' ').next().unwrap_or("")) }
+        match self.kind { 0 => "offered".into(), 1 => "reverse".into(), 7 => "lifetime".into(), 8 => format!("address.{}", self.what.split(' ').nth(1).unwrap_or("")), 3 => format!("onehop.{}", self.what.split(' ').nth(1).unwrap_or("")), _ => format!("mut.{}", self.what.split(' ').next().unwrap_or("")) }
     }
     pub fn end_name(&self) -> String {
         if self.out.end != 0 { return format!("abnormal{}", self.out.end); }
@@ -636,6 +636,44 @@ impl World {
                 }
             }
         }
+        // directed: addresses.  An offered path (no peering) whose DESTINATION ISD-AS is rewritten
+        // to: the right one / another existing AS / the same AS number in another ISD / the
+        // wildcard forms 0-<as>, <isd>-0, 0-0; and the same forms in the SOURCE field (which no
+        // forwarding decision may depend on).  Only equality of ISD-AS makes a packet local.
+        {
+            let plain: Vec<usize> = (0..self.paths.len()).filter(|&i| !self.paths[i].2.uses_peering()).collect();
+            let asn = |x: u64| x & 0xffff_ffff_ffff;
+            let isd = |x: u64| x >> 48;
+            let want = if budget < 20 { 3 } else { 6 };
+            let first = rng.below(12) as usize;
+            let mut made = 0usize;
+            while !plain.is_empty() && made < want {
+                let (s, d, base, meta) = &self.paths[*rng.pick(&plain)];
+                let v = (first + made) % 12;
+                made += 1;
+                let mut q = base.clone();
+                let other_isd = |x: u64| { let o = self.topo.ases.iter().map(|a| isd(a.ia)).find(|i| *i != isd(x)).unwrap_or(isd(x) + 1); ia(o, asn(x)) };
+                let other_as = |x: u64, y: u64, rng: &mut Rng| { let c: Vec<u64> = self.topo.ases.iter().map(|a| a.ia).filter(|a| *a != x && *a != y).collect(); if c.is_empty() { y } else { *rng.pick(&c) } };
+                let nm = match v {
+                    0 => "dst=right",
+                    1 => { q.dst = other_as(*d, *d, rng); "dst=other_as" }
+                    2 => { q.dst = *s; "dst=source_as" }
+                    3 => { q.dst = other_isd(*d); "dst=same_asn_other_isd" }
+                    4 => { q.dst = ia(0, asn(*d)); "dst=wildcard_isd" }
+                    5 => { q.dst = ia(isd(*d), 0); "dst=wildcard_as" }
+                    6 => { q.dst = 0; "dst=wildcard_both" }
+                    7 => { q.src = other_as(*s, *d, rng); "src=other_as" }
+                    8 => { q.src = other_isd(*s); "src=same_asn_other_isd" }
+                    9 => { q.src = ia(0, asn(*s)); "src=wildcard_isd" }
+                    10 => { q.src = ia(isd(*s), 0); "src=wildcard_as" }
+                    _ => { q.src = 0; "src=wildcard_both" }
+                };
+                let c = self.case(&self.topo, &self.real, now, *s, 0, q, 8, format!("address {nm} path {:x}->{:x}", s, d), meta.clone());
+                if c.out.end == 4 { sum.count(&format!("address.{nm}.not_encodable")); continue; }
+                sum.count(&format!("address.{nm}.{}", if c.out.end == 0 && matches!(c.out.trace.last(), Some((_, _, 2, _))) { "delivered" } else { "refused" }));
+                out.push(c);
+            }
+        }
         // directed: more than 64 hop fields with CurrHF = 63: the pointer must not wrap (routing.rs guards)
         if out.len() + 2 <= budget && rng.chance(1, 3) {
             let junk = Hop { flags: 0, exp: 63, cin: 1, ceg: 2, mac: [1, 2, 3, 4, 5, 6] };
@@ -750,7 +788,9 @@ impl World {
                         if rng.chance(1, 2) { p.ch = rng.below((n + 2) as u64) as u8; } else { p.ci = rng.below(4) as u8; }
                         what = format!("pointers ci={} ch={}", p.ci, p.ch); }
                 _ => { // destination address
-                        p.dst = rng.pick(&topo.ases).ia; what = format!("dst {:x}", p.dst); }
+                        let d0 = p.dst;
+                        p.dst = match rng.below(6) { 0 => d0 & 0xffff_ffff_ffff, 1 => d0 & !0xffff_ffff_ffffu64, 2 => 0, 3 => d0 ^ (3 << 48), _ => rng.pick(&topo.ases).ia };
+                        what = format!("dst {:x}", p.dst); }
             }
             if !p.well_formed() { continue; }
             let real2;
